@@ -181,6 +181,7 @@ func checkC13(c *Ctx) {
 	c13ReconnectDuringClose(c)
 	c13StalledReader(c)
 	c13HugeBody(c)
+	c13HugeJSONBody(c)
 	platformProbe(c, "C13", "plainprobe") // plaintext requests whose Content-Length does not fit a 32-bit int: host, 386, js/wasm
 	if c.NumViolations() > 0 {
 		return // the in-process streams below share the storage lock with this process
